@@ -20,11 +20,31 @@ Context {D W V : Type}.
 Context (invw : bool -> D -> W).          (* false: inverse_sample_covariance, true: inverse_unbiased_covariance *)
 Context (val : D -> option W -> V).
 
-(* option.mode_weight.  [Unhandled] = "unbiased_inverse_covariance": accepted by
-   WeightedProbabilityBasedSquaredErrorOption but without a branch in _set_weights_by_mode. *)
+(* option.mode_weight.  [Unhandled] = "unbiased_inverse_covariance": a spelling accepted by
+   WeightedProbabilityBasedSquaredErrorOption which had no branch in _set_weights_by_mode before fix
+   c12-se-alias-mode and is handled like "inverse_unbiased_covariance" since. *)
 Inductive wmode := Identity | Custom (w : W) | InvSample | InvUnbiased | Unhandled.
 
-(* WeightedProbabilityBasedSquaredError._set_weights_by_mode: identity is "pass" *)
+(* The repairs of fixes/c12-se-*.diff can be present independently of each other:
+     fx_id     c12-se-identity-mode-reset    "identity" resets the weights (was: pass)
+     fx_alias  c12-se-alias-mode             "unbiased_inverse_covariance" has a branch (was: none)
+     fx_ext    c12-se-fast-extended-weights  the fast loss rebuilds / clears its extension whenever weights are set
+   [repaired] (all three) is the model that the harness compares with the code; [as_coded] (none) is the code
+   as it was before these fixes; the mixed ones only serve to name which repair is missing. *)
+Record fixes := { fx_id : bool; fx_alias : bool; fx_ext : bool }.
+Definition as_coded : fixes := {| fx_id := false; fx_alias := false; fx_ext := false |}.
+Definition repaired : fixes := {| fx_id := true; fx_alias := true; fx_ext := true |}.
+
+(* WeightedProbabilityBasedSquaredError._set_weights_by_mode *)
+Definition new_weights_p (p : fixes) (o : wmode) (d : D) (old : option W) : option W :=
+  match o with
+  | Identity => if fx_id p then None else old
+  | Unhandled => if fx_alias p then Some (invw true d) else old
+  | Custom w => Some w
+  | InvSample => Some (invw false d)
+  | InvUnbiased => Some (invw true d)
+  end.
+(* ... as coded before the fixes: identity is "pass", the alias matches no branch *)
 Definition new_weights (o : wmode) (d : D) (old : option W) : option W :=
   match o with
   | Identity | Unhandled => old
@@ -34,12 +54,19 @@ Definition new_weights (o : wmode) (d : D) (old : option W) : option W :=
   end.
 
 (* what the call means: the weights named by the option, for this dataset, nothing else *)
-Definition spec_weights (o : wmode) (d : D) : option W := new_weights o d None.
+Definition spec_weights (o : wmode) (d : D) : option W :=
+  match o with
+  | Identity => None
+  | Custom w => Some w
+  | InvSample => Some (invw false d)
+  | InvUnbiased | Unhandled => Some (invw true d)
+  end.
 Definition spec (d : D) (o : wmode) : V := val d (spec_weights o d).
 
 Inductive lop := Configure (d : D) (o : wmode) | SetW (w : option W).
 
-(* ---- WeightedProbabilityBasedSquaredError (generic): fields _prob_dists_q/_func_prob_dists (= d), _weight_matrices *)
+(* ---- WeightedProbabilityBasedSquaredError (generic): fields _prob_dists_q/_func_prob_dists (= d), _weight_matrices.
+   [g_step] AS CODED BEFORE fixes c12-se-identity-mode-reset / c12-se-alias-mode; [g_step_p repaired] below is the repaired code *)
 Record gstate := { g_data : option D; g_w : option W }.
 Definition g_init (w0 : option W) : gstate := {| g_data := None; g_w := w0 |}.
 Definition g_step (s : gstate) (op : lop) : gstate :=
@@ -50,11 +77,19 @@ Definition g_step (s : gstate) (op : lop) : gstate :=
 Definition g_run (ops : list lop) (s : gstate) : gstate := fold_left g_step ops s.
 (* value()/gradient(): "if self.weight_matrices:" *)
 Definition g_value (s : gstate) : option V := option_map (fun d => val d (g_w s)) (g_data s).
+(* the same object with a given set of repairs present *)
+Definition g_step_p (p : fixes) (s : gstate) (op : lop) : gstate :=
+  match op with
+  | Configure d o => {| g_data := Some d; g_w := new_weights_p p o d (g_w s) |}
+  | SetW w => {| g_data := g_data s; g_w := w |}
+  end.
+Definition g_run_p (p : fixes) (ops : list lop) (s : gstate) : gstate := fold_left (g_step_p p) ops s.
 
 (* ---- StandardQTomographyBasedWeightedProbabilityBasedSquaredError (fast): additionally
    _prob_dists_q_flat/_matA/_vecB (= d) and _extend_weight_matrix, represented by the weights it was
-   built from.  _calc_extend_weight_matrix() runs inside set_func_(gradient_)prob_dists_from_standard_qt,
-   i.e. BEFORE _set_weights_by_mode, and returns early when weight_matrices is None. *)
+   built from.  [f_step] AS CODED BEFORE fixes c12-se-fast-extended-weights / c12-se-identity-mode-reset /
+   c12-se-alias-mode: _calc_extend_weight_matrix() runs inside set_func_(gradient_)prob_dists_from_standard_qt,
+   i.e. BEFORE _set_weights_by_mode, and returns early when weight_matrices is None; nothing else refreshes it. *)
 Record fstate := { f_data : option D; f_w : option W; f_ext : option W }.
 Definition f_init (w0 : option W) : fstate := {| f_data := None; f_w := w0; f_ext := None |}.
 Definition f_step (s : fstate) (op : lop) : fstate :=
@@ -69,26 +104,24 @@ Definition f_run (ops : list lop) (s : fstate) : fstate := fold_left f_step ops 
 (* value()/gradient(): "if self._extend_weight_matrix is not None:" *)
 Definition f_value (s : fstate) : option V := option_map (fun d => val d (f_ext s)) (f_data s).
 
-(* the proposed fix: rebuild the extension after the weights are set (and drop it when there are none) *)
+(* the same object with a given set of repairs present.  With fx_ext: _calc_extend_weight_matrix clears the
+   extension when there are no weights, and set_weight_matrices (called by _set_weights_by_mode and by the
+   user) rebuilds it, so the extension always mirrors the weights. *)
+Definition f_step_p (p : fixes) (s : fstate) (op : lop) : fstate :=
+  match op with
+  | Configure d o =>
+      let w := new_weights_p p o d (f_w s) in
+      {| f_data := Some d; f_w := w;
+         f_ext := if fx_ext p then w else match f_w s with Some x => Some x | None => f_ext s end |}
+  | SetW w => {| f_data := f_data s; f_w := w; f_ext := if fx_ext p then w else f_ext s |}
+  end.
+Definition f_run_p (p : fixes) (ops : list lop) (s : fstate) : fstate := fold_left (f_step_p p) ops s.
+
+(* all repairs, written out: rebuild the extension after the weights are set (and drop it when there are none) *)
 Definition f_step_fixed (s : fstate) (op : lop) : fstate :=
   match op with
   | Configure d o => let w := spec_weights o d in {| f_data := Some d; f_w := w; f_ext := w |}
   | SetW w => {| f_data := f_data s; f_w := w; f_ext := w |}
-  end.
-(* partial fixes (only used by the harness to say WHICH defect explains an observed history dependence):
-   extension rebuilt after the weights are set but "identity" still keeps old weights / identity resets the
-   weights but the extension is still built before them *)
-Definition f_step_extfix (s : fstate) (op : lop) : fstate :=
-  match op with
-  | Configure d o => let w := new_weights o d (f_w s) in {| f_data := Some d; f_w := w; f_ext := w |}
-  | SetW w => {| f_data := f_data s; f_w := w; f_ext := w |}
-  end.
-Definition f_step_wfix (s : fstate) (op : lop) : fstate :=
-  match op with
-  | Configure d o =>
-      {| f_data := Some d; f_w := spec_weights o d;
-         f_ext := match f_w s with Some w => Some w | None => f_ext s end |}
-  | SetW w => {| f_data := f_data s; f_w := w; f_ext := f_ext s |}
   end.
 Definition g_step_fixed (s : gstate) (op : lop) : gstate :=
   match op with
@@ -96,7 +129,8 @@ Definition g_step_fixed (s : gstate) (op : lop) : gstate :=
   | SetW w => {| g_data := g_data s; g_w := w |}
   end.
 
-(* ---- (StandardQTomographyBased)WeightedRelativeEntropy: _set_weights_by_mode is the inherited no-op
+(* ---- (StandardQTomographyBased)WeightedRelativeEntropy AS CODED BEFORE fixes c12-re-set-weights-by-mode and
+   c12-re-fast-extend-weights: _set_weights_by_mode is the inherited no-op
    (the subclass method is misspelt _sets_weight_by_mode and never called), so configuring never touches
    the weights; the fast variant recomputes _extend_weights from the current weights and the NEW q inside
    set_func_prob_dists_from_standard_qt. *)
@@ -113,6 +147,24 @@ Definition r_run (ops : list lop) (s : rstate) : rstate := fold_left r_step ops 
 Definition r_value (s : rstate) : option V :=
   option_map (fun d => val d (match r_w s with Some _ => r_ext s | None => None end)) (r_data s).
 
+(* ... and as repaired (the model compared with the code): _set_weights_by_mode exists, "identity" resets the
+   weights, "custom" installs the option's (the option class accepts no other mode; for those the method has
+   no branch); set_weights of the fast variant rebuilds the extension once the data are there.  The extension
+   is only read when the weights are not None. *)
+Definition r_new_weights (o : wmode) (old : option W) : option W :=
+  match o with Identity => None | Custom w => Some w | _ => old end.
+Definition r_step_fixed (s : rstate) (op : lop) : rstate :=
+  match op with
+  | Configure d o =>
+      let w := r_new_weights o (r_w s) in
+      {| r_data := Some d; r_w := w;
+         r_ext := match w with Some x => Some x
+                  | None => match r_w s with Some x => Some x | None => r_ext s end end |}
+  | SetW w => {| r_data := r_data s; r_w := w;
+                 r_ext := match w, r_data s with Some x, Some _ => Some x | _, _ => r_ext s end |}
+  end.
+Definition r_run_fixed (ops : list lop) (s : rstate) : rstate := fold_left r_step_fixed ops s.
+
 (* the weights that the last non-identity configuration / setter of a history left behind *)
 Fixpoint last_weights (ops : list lop) (w0 : option W) : option W :=
   match ops with
@@ -127,9 +179,11 @@ End Loss.
 Arguments Identity {W}. Arguments InvSample {W}. Arguments InvUnbiased {W}. Arguments Unhandled {W}.
 Arguments Custom {W} w. Arguments Configure {D W} d o. Arguments SetW {D W} w.
 
-(* ---- ProjectedGradientDescent: _func_proj is built from (qt, option) on the FIRST call of
-   set_constraint_from_standard_qt_and_option and kept ("if self._func_proj is not None: return");
-   _qt, _option, _loss are overwritten on every call. *)
+(* ---- ProjectedGradientDescent.  [a_step] AS CODED BEFORE fix pgd-cached-func-proj: _func_proj is built from
+   (qt, option) on the FIRST call of set_constraint_from_standard_qt_and_option and kept
+   ("if self._func_proj is not None: return"); _qt, _option, _loss are overwritten on every call.
+   [a_step_fixed user] as repaired (the model compared with the code): a projection handed to the constructor
+   ([user]) is kept, otherwise the projection is rebuilt from (qt, option) on every call. *)
 Section Algo.
 Context {Q O P : Type}.
 Context (mkproj : Q -> O -> P).
@@ -159,6 +213,15 @@ Definition est_step_f (st : @fstate D W * @astate Q O P) (j : job) : (@fstate D 
   let l := f_step invw (fst st) (Configure (j_data j) (j_mode j)) in
   let a := a_step mkproj (snd st) (qt_of (j_data j), j_opt j) in
   ((l, a), solve (f_value val l) (a_proj a) (a_qt a) (a_opt a)).
+(* the estimation loop with the repairs [p] of the loss present and the repaired algorithm object (no user projection) *)
+Definition est_step_gp (p : fixes) (st : @gstate D W * @astate Q O P) (j : job) : (@gstate D W * @astate Q O P) * R :=
+  let l := g_step_p invw p (fst st) (Configure (j_data j) (j_mode j)) in
+  let a := a_step_fixed mkproj None (snd st) (qt_of (j_data j), j_opt j) in
+  ((l, a), solve (g_value val l) (a_proj a) (a_qt a) (a_opt a)).
+Definition est_step_fp (p : fixes) (st : @fstate D W * @astate Q O P) (j : job) : (@fstate D W * @astate Q O P) * R :=
+  let l := f_step_p invw p (fst st) (Configure (j_data j) (j_mode j)) in
+  let a := a_step_fixed mkproj None (snd st) (qt_of (j_data j), j_opt j) in
+  ((l, a), solve (f_value val l) (a_proj a) (a_qt a) (a_opt a)).
 (* the meaning of one job: fresh loss, fresh algorithm *)
 Definition est_spec (j : job) : R :=
   solve (Some (spec invw val (j_data j) (j_mode j))) (Some (mkproj (qt_of (j_data j)) (j_opt j)))
@@ -167,4 +230,8 @@ Fixpoint est_run_g st (js : list job) : (@gstate D W * @astate Q O P) :=
   match js with [] => st | j :: t => est_run_g (fst (est_step_g st j)) t end.
 Fixpoint est_run_f st (js : list job) : (@fstate D W * @astate Q O P) :=
   match js with [] => st | j :: t => est_run_f (fst (est_step_f st j)) t end.
+Fixpoint est_run_gp p st (js : list job) : (@gstate D W * @astate Q O P) :=
+  match js with [] => st | j :: t => est_run_gp p (fst (est_step_gp p st j)) t end.
+Fixpoint est_run_fp p st (js : list job) : (@fstate D W * @astate Q O P) :=
+  match js with [] => st | j :: t => est_run_fp p (fst (est_step_fp p st j)) t end.
 End Estimate.
